@@ -289,5 +289,5 @@ func TestC03(t *testing.T) {
 		}
 		return nil
 	}
-	runProp(t, "C03", checkC03, exhaustive, part[c03Case]{"sampled-patterns", scale(1500, 15000), genC03})
+	runProp(t, "C03", checkC03, exhaustive, part[c03Case]{"sampled-patterns", scale(4000, 20000), genC03})
 }
